@@ -19,6 +19,98 @@ def plans():
     return out, meta
 
 
+OPD_DOM = [
+    {"name": "x", "kind": "int", "lo": {"inf": 0, "n": -1, "d": 1}, "hi": {"inf": 0, "n": 2, "d": 1}},
+    {"name": "y", "kind": "int", "lo": {"inf": 0, "n": 0, "d": 1}, "hi": {"inf": 0, "n": 2, "d": 1}},
+    {"name": "p", "kind": "bool", "lo": {"inf": 0, "n": 0, "d": 1}, "hi": {"inf": 0, "n": 1, "d": 1}},
+    {"name": "q", "kind": "bool", "lo": {"inf": 0, "n": 0, "d": 1}, "hi": {"inf": 0, "n": 1, "d": 1}},
+]
+
+
+def _num(n):
+    return {"op": "num", "n": n, "d": 1}
+
+
+def _vars(t, acc):
+    if t["op"] == "var":
+        acc.add(t["name"])
+    for k in ("a", "b"):
+        if k in t:
+            _vars(t[k], acc)
+    for x in t.get("args", []):
+        _vars(x, acc)
+
+
+LOGIC_OPS = {"and", "or", "not", "u_not", "xor", "implies", "iff", "b_and", "b_or", "b_xor", "b_implies", "b_iff"}
+
+
+def well_typed(t, logic=False):
+    """The text language's static typing wants Booleans in logic operand positions: a numeric
+    literal other than the ones written true / false there is rejected by the type checker (the
+    doors that run it reject the program, the ones that do not compile it) - such programs are
+    not models of the text language and are left out."""
+    op = t["op"]
+    if op == "num":
+        return not logic or (t["d"] == 1 and t["n"] in (0, 1))
+    if op == "var":
+        return not logic or t["name"] in ("p", "q")
+    lg = op in LOGIC_OPS
+    if logic and not lg:
+        return False
+    kids = [t[k] for k in ("a", "b") if k in t] + list(t.get("args", []))
+    return all(well_typed(k, lg) for k in kids)
+
+
+def operand_models(tier, seed, meta):
+    """Models around the expression trees of ExprGen (every operator over every pair of operand
+    kinds: handle / integer / float / Boolean literal / compound, both orders): the tree as the
+    objective, as one side of a constraint, or (logic trees) as an assertion."""
+    out = []
+    for fam, nquick in (("d1", 500), ("d2num", 500), ("d2log", 300)):
+        cs, g, d = core.gen_cases(rewrite.SPEC_DIR, "ExprGen.tla", f"Gen_{fam}.cfg", "ex" + fam, workers=8)
+        meta["operands:" + fam] = {"cases": len(cs), "gen_states": d, "gen_transitions": g}
+        if tier == "quick":
+            k = max(1, len(cs) // nquick)
+            cs = [(i, c) for i, c in enumerate(cs)][seed % k::k]
+        else:
+            cs = list(enumerate(cs))
+        skipped = 0
+        for i, c in cs:
+            t = c["tree"]
+            if not well_typed(t):
+                skipped += 1
+                continue
+            xy = {"lhs": {"op": "add", "a": {"op": "var", "name": "x"}, "b": {"op": "var", "name": "y"}}, "cmp": "le", "rhs": _num(3), "assert": False, "name": ""}
+            mode = (i + seed) % 4
+            if mode == 0:
+                m = {"sense": "max", "obj": t, "cons": [xy]}
+            elif mode == 1:
+                m = {"sense": "min", "obj": t, "cons": [xy]}
+            elif mode == 2:
+                m = {"sense": "max", "obj": {"op": "add", "a": {"op": "var", "name": "x"}, "b": {"op": "var", "name": "q"}},
+                     "cons": [{"lhs": t, "cmp": "le", "rhs": _num(1), "assert": False, "name": ""}, xy]}
+            else:
+                m = {"sense": "min", "obj": {"op": "sub", "a": {"op": "var", "name": "y"}, "b": {"op": "var", "name": "p"}},
+                     "cons": [{"lhs": _num(1), "cmp": "le", "rhs": t, "assert": False, "name": ""}, xy]}
+            if fam == "d2log" and i % 3 == 0 and t["op"] in LOGIC_OPS:
+                a = {"lhs": t, "cmp": "eq", "rhs": _num(1), "assert": True, "name": ""}
+                if mode >= 2:
+                    m["cons"][0] = a
+                else:
+                    m["cons"].append(a)
+                    m["obj"] = {"op": "add", "a": {"op": "var", "name": "x"}, "b": {"op": "var", "name": "q"}}
+            used = set()
+            _vars(m["obj"], used)
+            for c_ in m["cons"]:
+                _vars(c_["lhs"], used)
+                _vars(c_["rhs"], used)
+            m["dom"] = [copy.deepcopy(d_) for d_ in OPD_DOM if d_["name"] in used]
+            m["id"] = f"O{fam}_{i}"
+            out.append(m)
+        meta["operands:" + fam]["ill_typed_left_out"] = skipped
+    return out
+
+
 def expected_model(case, plan):
     m = copy.deepcopy(case)
     if plan["expected"] == "sat":
@@ -53,9 +145,10 @@ def check(tier, seed, replay=None):
             c["id"] = f"H{seed}_{i}"
         meta["H"] = {"cases": len(hs), "simulated_behaviours": nsim}
         hs = hs[:700] if tier == "quick" else hs
+        os_ = operand_models(tier, seed, meta)
         rnd = random.Random(seed)
         cases = []
-        for i, c in enumerate(cs + hs):
+        for i, c in enumerate(cs + hs + os_):
             plan = rnd.choice(pl[min(2, len(c["cons"]))])
             named = i % 2 == 0
             for j, con in enumerate(c["cons"]):
@@ -78,7 +171,7 @@ def check(tier, seed, replay=None):
         c = bycase.get(r[2], {})
         ev = byid.get(r[2], {})
         door = r[3].split(":")[0] if ":" in r[3] else "B"
-        res = ev.get(door, {}) if door in "BTKPS" else {}
+        res = ev.get(door, {}) if door in "BNTKPS" else {}
         o.violation(f"{r[3]}:{c.get('text')}", c, f"{r[3]}\n{c.get('text')}\nplan={[(x['call'], x['n'], x['obj']) for x in c.get('plan', {}).get('calls', [])]} -> {res.get('out')} {res.get('kind','')} {res.get('why','')[:150]}")
     same = sum(1 for s in v.stats if s[3] == 1)
     samples = [{"text": c["text"], "plan": [(x["call"], x["n"], x["obj"]) for x in c["plan"]["calls"]], "expected_objective": c["plan"]["expected"]} for c in cases[::max(1, len(cases) // 3)]][:3]
@@ -88,16 +181,17 @@ def check(tier, seed, replay=None):
         "transitions": v.generated + sum(m.get("gen_transitions", 0) for m in meta.values()),
         "traces_validated_against_impl": len(v.stats),
         "samples": samples,
-        "evaluations": len(events) * 5,
+        "evaluations": len(events) * 6,
+        "native_overload_trees_equal_to_expr_trees": sum(1 for s in v.stats if len(s) > 5 and s[5] == 1),
         "distinct_nontrivial": same,
         "rule": "one event = one abstract model (ModelGen family G sampled, H simulated) with a call plan from Builder.tla (all interleavings of with / with_all / objective"
-                " calls up to 4 calls, enumerated by TLC), taken through five doors: builder (methods + operators), text, text with API-supplied constants, pipes, one-shot;"
+                " calls up to 4 calls, enumerated by TLC), taken through six doors: builder with every operand an Expr, builder written natively (most specific operator overload per operand kind: handle / i32 / f64 / bool / &Expr, list helpers over handles, sum(), constraint! macros per relation), text, text with API-supplied constants, pipes, one-shot;"
                 " non-trivial = builder and text produced identical Model trees (row-for-row comparison applies)",
         "exhaustive": False,
         "families": meta,
         "unverifiable_overflow_count": len(v.overflow_ids),
     }
-    o.assumptions = ["integer and Boolean domains (answers judged by complete enumeration)", "the macro front end (vars!, constraint!, expr!) is not exercised: it expands to the same method calls at compile time"]
+    o.assumptions = ["integer and Boolean domains (answers judged by complete enumeration)", "vars! is not exercised (declarations need compile-time identifiers); constraint!/expr! are exercised with one expression per side"]
     return o.finish()
 
 
